@@ -332,25 +332,32 @@ def sampling(tier, rng, rep):
             v = rng.normal(size=(kk, 2))
             return v / np.linalg.norm(v, axis=-1, keepdims=True) * rng.uniform(0.1, 0.95, size=(kk, 1))
         ka, kb = klp(), klp()
-        if t % 2 == 0:
-            # targeted: chords crossing the positive x-axis far from the origin: seen from the circle's centre the two
-            # endpoint angles straddle the +-pi branch cut, so several units get reordered by the arc rule
-            ka = np.stack([rng.uniform(0.5, 0.85, kk), rng.uniform(0.1, 0.4, kk)], axis=-1)
-            kb = np.stack([rng.uniform(0.5, 0.85, kk), -rng.uniform(0.1, 0.4, kk)], axis=-1)
-        Sg = h.Segment(h.Point(ka.copy(), model="klein"), h.Point(kb.copy(), model="klein"))
-        for model in ("poincare", "halfspace"):
-            for deg in (True, False):
-                inp = {"klein_a": ka.tolist(), "klein_b": kb.tolist(), "model": model, "degrees": deg}
+        # targeted families next to the random one: chords crossing a coordinate half-axis far from the origin, in each of the four quadrant rotations and in
+        # both endpoint orders (seen from the circle's centre the endpoint angles straddle a branch cut of arctan2, so several units get reordered by the arc rule)
+        fams = [("random", ka, kb)]
+        kk4 = 4
+        xa = np.stack([rng.uniform(0.5, 0.85, kk4), rng.uniform(0.1, 0.4, kk4)], axis=-1)
+        xb = np.stack([rng.uniform(0.5, 0.85, kk4), -rng.uniform(0.1, 0.4, kk4)], axis=-1)
+        for qi, phi_ in enumerate([0.0, np.pi / 2, np.pi, 3 * np.pi / 2]):
+            Rq = np.array([[np.cos(phi_), -np.sin(phi_)], [np.sin(phi_), np.cos(phi_)]])
+            fa_, fb_ = xa @ Rq.T, xb @ Rq.T
+            fams.append((f"quadrant{qi}", fa_, fb_) if (t + qi) % 2 == 0 else (f"quadrant{qi}_reversed", fb_, fa_))
+        for fname, ka, kb in fams:
+            kk = len(ka)
+            Sg = h.Segment(h.Point(ka.copy(), model="klein"), h.Point(kb.copy(), model="klein"))
+            for model in ("poincare", "halfspace"):
+                for deg in (True, False):
+                    inp = {"family": fname, "klein_a": ka.tolist(), "klein_b": kb.tolist(), "model": model, "degrees": deg}
 
-                def cp():
-                    c, r, th = Sg.circle_parameters(model=model, degrees=deg)
-                    for j in range(kk):
-                        cj, rj, tj = h.Segment(h.Point(ka[j].copy(), model="klein"), h.Point(kb[j].copy(), model="klein")).circle_parameters(model=model, degrees=deg)
-                        sc = 1 + abs(rj)
-                        if not np.all(np.abs(c[j] - cj) <= 1e-9 * sc) or not (abs(r[j] - rj) <= 1e-9 * sc) or not np.all(np.abs(th[j] - tj) <= 1e-9 * (360 if deg else 7)):
-                            rep.fail("circle_parameters_per_unit", f"unit {j}: angles {th[j]} vs {tj}", inp); return
-                rep.attempt("circle_parameters_run", inp, cp)
-                rep.case(key=(t, "cp", model, deg), nontrivial=True)
+                    def cp():
+                        c, r, th = Sg.circle_parameters(model=model, degrees=deg)
+                        for j in range(kk):
+                            cj, rj, tj = h.Segment(h.Point(ka[j].copy(), model="klein"), h.Point(kb[j].copy(), model="klein")).circle_parameters(model=model, degrees=deg)
+                            sc = 1 + abs(rj)
+                            if not np.all(np.abs(c[j] - cj) <= 1e-9 * sc) or not (abs(r[j] - rj) <= 1e-9 * sc) or not np.all(np.abs(th[j] - tj) <= 1e-9 * (360 if deg else 7)):
+                                rep.fail("circle_parameters_per_unit", f"{fname}: unit {j}: angles {th[j]} vs {tj}", inp); return
+                    rep.attempt("circle_parameters_run", inp, cp)
+                    rep.case(key=(t, "cp", fname, model, deg), nontrivial=True)
         # fixed points of a composite of conjugated standard isometries, unit by unit
         k = int(rng.integers(2, 5))
         isos = []
